@@ -1,14 +1,17 @@
 (** Extraction of the comp engine (ExtrOcamlBasic only; numbers stay inductive). *)
 Require Extraction.
 Require Import ExtrOcamlBasic.
-From Coq Require Import NArith List.
-From Carquet Require Import Base.Res Comp.CompBase Comp.SnappySpec Comp.SnappyModel Comp.Lz4Spec Comp.Lz4Model.
+From Coq Require Import NArith List FMapPositive.
+From Carquet Require Import Base.Res Comp.CompBase Comp.CompMem Comp.SnappySpec Comp.SnappyModel Comp.Lz4Spec Comp.Lz4Model.
 
 Definition snappy_spec_decode := SnappySpec.spec_decode.
 Definition snappy_decompress := SnappyModel.decompress.
 Definition snappy_decompress_pinned := SnappyModel.decompress_pinned.
 Definition snappy_compress := SnappyModel.compress.
 Definition snappy_bound := SnappyModel.compress_bound.
+Definition snappy_compress_c (x : list N) (cap : N) :=
+  SnappyModel.compress_c (CompMem.hash_look SnappyModel.snappy_hash x) (CompMem.hash_ins SnappyModel.snappy_hash x)
+    (FMapPositive.PositiveMap.empty N) x cap.
 Definition snappy_get_len := SnappyModel.get_uncompressed_length.
 Definition lz4_spec_decode := Lz4Spec.spec_decode.
 Definition lz4_spec_decode_lax := Lz4Spec.spec_decode_lax.
@@ -19,5 +22,5 @@ Definition lz4_bound := Lz4Model.compress_bound.
 
 Extraction Language OCaml.
 Extraction "extracted/comp_ext.ml"
-  snappy_spec_decode snappy_decompress snappy_decompress_pinned snappy_compress snappy_bound snappy_get_len
+  snappy_spec_decode snappy_decompress snappy_decompress_pinned snappy_compress snappy_compress_c snappy_bound snappy_get_len
   lz4_spec_decode lz4_spec_decode_lax lz4_check_end_rules lz4_decompress lz4_compress lz4_bound.
